@@ -82,7 +82,29 @@ def run(tier):
                 c.violation("build-wide", "extension of the wide library does not build: " + err[:600], {"error": err})
                 c.finish()
             res += pygen.run_plan(dw, wplan)
-        plan = plan + wplan
+            # the same kind of library declared as C (language: c): rows of LibGen's CRows / CResults, no overloads,
+            # no default arguments
+            sets = libgen.cfg_sets()
+            crows, cres = sets["CRows"] & pygen.PY_ROWS, sets["CResults"] & pygen.PY_RESULTS
+            seen = set()
+            ccases = []
+            for x in cases + [w for w in wide if len(w["params"]) <= 2][::7]:
+                if x["name"] in seen or any("default" in p_ for p_ in x["params"]) or x.get("template"):
+                    continue
+                if sum(1 for y_ in cases if y_["name"] == x["name"]) > 1:
+                    continue
+                if all(p_["kind"] in crows for p_ in x["params"]) and x["result"] in cres:
+                    seen.add(x["name"])
+                    ccases.append(x)
+            cplan = pygen.make_plan(ccases, 3 if thorough else 2, rng)
+            dc = os.path.join(d, "clang")
+            ok, err = pygen.build_ext(dc, ccases, language="c")
+            if ok is None:
+                c.violation("build-c", "extension of the C library does not build: " + err[:600], {"error": err})
+                c.finish()
+            res += pygen.run_plan(dc, cplan)
+            c.part("c_library", functions=len(ccases), calls=len(cplan))
+        plan = plan + wplan + cplan
         traces = []
         for p, r in zip(plan, res):
             if r is None:
